@@ -1315,7 +1315,7 @@ def derivative_surface(obj):
         return obj
 
     # Find the control points of the derivative surface
-    d = 2  # 0 <= k + l <= d, see pg. 114 of The NURBS Book, 2nd Ed.
+    d = 1  # first derivatives only; higher ones do not exist at knots of full multiplicity
     pkl = helpers.surface_deriv_cpts(obj.dimension, obj.degree, obj.knotvector, obj.ctrlpts, obj.cpsize,
                                             rs=(0, obj.ctrlpts_size_u - 1), ss=(0, obj.ctrlpts_size_v - 1), deriv_order=d)
 
@@ -1342,8 +1342,11 @@ def derivative_surface(obj):
     surf_v.delta = obj.delta
 
     ctrlpts2d_uv = []
-    for i in range(0, len(pkl[1][1]) - 1):
-        ctrlpts2d_uv.append(pkl[1][1][i][0:-1])
+    for i in range(0, len(pkl[1][0]) - 1):
+        # v-derivative of the u-derivative control points
+        pk_uv = helpers.curve_deriv_cpts(obj.dimension, obj.degree_v, obj.knotvector_v, pkl[1][0][i],
+                                         rs=(0, obj.ctrlpts_size_v - 1), deriv_order=1)
+        ctrlpts2d_uv.append(pk_uv[1][0:-1])
 
     # Generate the derivative curve
     surf_uv = obj.__class__(normalize_kv=False)
